@@ -11,7 +11,7 @@ import sys
 
 from .. import adeck, conv, core, deckrun, tlc
 
-KINDS = {'spurious', 'unowned', 'multi', 'wrongid', 'crash'}
+KINDS = {'spurious', 'unowned', 'multi', 'wrongid', 'wrongprov', 'crash'}
 
 
 def body_deck(card, k):
@@ -51,6 +51,8 @@ def main():
     uniq = {json.dumps(r['card'], sort_keys=True): r for r in recs}
     recs = [uniq[k] for k in sorted(uniq)]
     allpts = adeck.grid_points(rng, 10 ** 6, -9, 9)
+    innerpts = [p for p in allpts if max(abs(v) for v in p) <= 7]
+    outerpts = [p for p in allpts if max(abs(v) for v in p) > 7]
     jobs, nd, meta = [], {}, {}
     tid = 0
     for r in recs:
@@ -60,7 +62,8 @@ def main():
         for k in facets:
             tid += 1
             d = adeck.normalise(body_deck(r['card'], k))
-            d['pts'] = allpts if thorough else rng.sample(allpts, 150)
+            # quick: 110 of the 512 grid points of [-4,4]^3, where the bodies are, and 40 of the rest
+            d['pts'] = allpts if thorough else rng.sample(innerpts, 110) + rng.sample(outerpts, 40)
             nd[tid] = d
             meta[tid] = (r, k)
             jobs.append({'tid': tid, 'deck': d, 'opts': []})
@@ -75,6 +78,21 @@ def main():
                 nd[tid] = dt
                 meta[tid] = (r, k)
                 jobs.append({'tid': tid, 'deck': dt, 'opts': []})
+            if k in (0, 1) or thorough:
+                # the body (or the facet) in a universe cell that carries a TRCL, the universe placed by a FILL with
+                # another transformation: the surface goes through two successive transformations
+                tid += 1
+                d2 = adeck.normalise({'surfs': [dict(r['card'], n=1), {'n': 9, 'k': 'so', 'p': [60]}],
+                                      'cells': [{'n': 1, 'geom': ['S', -9, 0], 'fill': 5, 'hasftr': True, 'ftrspell': '12',
+                                                 'ftr': {'o': [0, 1, -1], 'm': [0, 0, 1, 1, 0, 0, 0, 1, 0]}},
+                                                {'n': 2, 'geom': ['S', 9, 0], 'imp': 0},
+                                                {'n': 11, 'geom': ['S', -1, k], 'u': 5, 'hastrcl': True, 'trclspell': '12',
+                                                 'trcl': {'o': [1, 0, -1], 'm': [0, 1, 0, -1, 0, 0, 0, 0, 1]}},
+                                                {'n': 12, 'geom': ['C', 11], 'u': 5}]})
+                d2['pts'] = d['pts']
+                nd[tid] = d2
+                meta[tid] = (r, k)
+                jobs.append({'tid': tid, 'deck': d2, 'opts': []})
             if k == 0 or thorough:
                 # covariance: the same deck under a general rigid motion
                 tid += 1
